@@ -249,4 +249,19 @@ theorem lookup_mono (f : Fixed) (isStart : Bool) (g : GArg) (k : String) (iv : I
       | true => have := eq_of_beq hk; subst this; rw [h] at hl; cases hl
     simp [List.lookup, hne, h]
 
+theorem lookup_mem (f : Fixed) (k : String) (iv : Int) (h : f.lookup k = some iv) : (k, iv) ∈ f := by
+  induction f with
+  | nil => simp [List.lookup] at h
+  | cons p rest ih =>
+    obtain ⟨k', v'⟩ := p
+    simp only [List.lookup] at h
+    cases hk : (k == k') with
+    | true =>
+      rw [hk] at h
+      have := eq_of_beq hk; subst this
+      simp at h; subst h; exact List.mem_cons_self
+    | false =>
+      rw [hk] at h
+      exact List.mem_cons_of_mem _ (ih h)
+
 end PonyVerif.Model.SqlStr
